@@ -17,7 +17,7 @@ Inductive node : Type :=
 | NDir (entries : list (str * node)).        (* a Python dict: insertion order *)
 
 Inductive ferr : Type :=
-| FNotFound | FIsDir | FNotDir | FExists | FTypeError | FAttrError | FAssertion | FUnrouted.
+| FNotFound | FIsDir | FNotDir | FExists | FTypeError | FAttrError | FAssertion | FUnrouted | FNotEmpty.
 Inductive fres (A : Type) : Type := FOk (a : A) | FErr (e : ferr).
 Arguments FOk {A} a.
 Arguments FErr {A} e.
@@ -230,6 +230,54 @@ Fixpoint mkdirs_at (n : node) (cs : list str) : fres node :=
   end.
 Definition mkdirs (root : node) (p : str) : fres node := mkdirs_at root (components p).
 
+(* mkdir(path): one new directory under an existing parent *)
+Definition mkdir (root : node) (p : str) : fres node :=
+  match parent_and_name root p with
+  | FErr e => FErr e
+  | FOk (_, NFile _, _) => FErr FTypeError                (* `name in <MemoryFile>` *)
+  | FOk (pcs, NDir es, name) =>
+      match alookup name es with
+      | Some _ => FErr FExists
+      | None => FOk (upd_dir (aset name (NDir [])) root pcs)
+      end
+  end.
+(* rmdir(path): an empty directory *)
+Definition rmdir (root : node) (p : str) : fres node :=
+  match parent_and_name root p with
+  | FErr e => FErr e
+  | FOk (_, NFile _, _) => FErr FAttrError
+  | FOk (pcs, NDir es, name) =>
+      match alookup name es with
+      | None => FErr FNotFound
+      | Some (NFile _) => FErr FNotDir
+      | Some (NDir []) => FOk (upd_dir (aremove name) root pcs)
+      | Some (NDir _) => FErr FNotEmpty                 (* OSError: Directory not empty *)
+      end
+  end.
+(* rmdirs(path): the empty directory and then every parent that became empty; (new node, is it empty now) *)
+Definition is_empty_dir (n : node) : bool := match n with NDir [] => true | _ => false end.
+Fixpoint rmdirs_at (n : node) (cs : list str) : fres (node * bool) :=
+  match cs with
+  | [] => if is_empty_dir n then FOk (n, true) else FErr FNotEmpty
+  | c :: r =>
+      match n with
+      | NFile _ => FErr FNotDir
+      | NDir es =>
+          match alookup c es with
+          | None => FErr FNotFound
+          | Some (NFile _) => FErr FNotDir
+          | Some ch =>
+              match rmdirs_at ch r with
+              | FErr e => FErr e
+              | FOk (ch', true) => let es' := aremove c es in FOk (NDir es', is_empty_dir (NDir es'))
+              | FOk (ch', false) => FOk (NDir (aset c ch' es), false)
+              end
+          end
+      end
+  end.
+Definition rmdirs (root : node) (p : str) : fres node :=
+  match rmdirs_at root (components p) with FOk (r, _) => FOk r | FErr e => FErr e end.
+
 Definition exists_ (root : node) (p : str) : fres bool :=
   match locate root (components p) with
   | LCrash => FErr FTypeError
@@ -319,7 +367,10 @@ Inductive op : Type :=
 | OIsdir (p : str)
 | OWrite (p : str) (m : mode) (content : str)          (* writefile(path, content, mode=...) *)
 | OSeqWrite (p : str) (m : mode) (records : list str)  (* open_sequence(path, mode) + add* + close *)
-| OSeqRead (p : str).                                  (* list(iter(open_sequence(path))) *)
+| OSeqRead (p : str)                                   (* list(iter(open_sequence(path))) *)
+| OMkdir (p : str)
+| ORmdir (p : str)
+| ORmdirs (p : str).
 
 Inductive outcome : Type :=
 | RUnit | RText (s : str) | RBool (b : bool) | RNames (l : list str) | RErr (e : ferr).
@@ -327,7 +378,7 @@ Inductive outcome : Type :=
 Definition op_path (o : op) : str :=
   match o with
   | OSave p _ | ORead p | ORm p | OMkdirs p | OExists p | OListdir p | OIsdir p | OWrite p _ _
-  | OSeqWrite p _ _ | OSeqRead p => p
+  | OSeqWrite p _ _ | OSeqRead p | OMkdir p | ORmdir p | ORmdirs p => p
   end.
 
 Definition upd (root : node) (r : fres node) : node * outcome :=
@@ -350,6 +401,9 @@ Definition step (root : node) (o : op) : node * outcome :=
   | OWrite p m c => upd root (write_file root p m c)
   | OSeqWrite p m rs => upd2 (seq_write root p m rs)
   | OSeqRead p => obs root RNames (seq_read root p)
+  | OMkdir p => upd root (mkdir root p)
+  | ORmdir p => upd root (rmdir root p)
+  | ORmdirs p => upd root (rmdirs root p)
   end.
 
 Fixpoint run_trace (root : node) (h : list op) : node * list outcome :=
@@ -364,7 +418,7 @@ Definition empty_fs : node := NDir [].
 
 (* --- wire format ------------------------------------------------------------------------------
    op      ::= (0 path text) | (1 path) | (2 path) | (3 path) | (4 path) | (5 path) | (6 path)
-             | (7 path modebits text) | (8 path modebits (text ...)) | (9 path)      modebits: r=1 w=2 a=4
+             | (7 path modebits text) | (8 path modebits (text ...)) | (9 path) | (10 path) mkdir | (11 path) rmdir | (12 path) rmdirs      modebits: r=1 w=2 a=4
    outcome ::= (0) | (1 text) | (2 b) | (3 (name ...)) | (9 errcode)
    node    ::= (0 text) | (1 ((name node) ...))
    case    ::= (op ...)           ->  ((outcome ...) node)  from the empty file system *)
@@ -385,12 +439,15 @@ Definition d_op (t : tr) : option op :=
   | L [I 7%Z; p; m; c] => do p' <- dstr p; do m' <- d_mode m; do c' <- dstr c; Some (OWrite p' m' c')
   | L [I 8%Z; p; m; rs] => do p' <- dstr p; do m' <- d_mode m; do rs' <- dlist dstr rs; Some (OSeqWrite p' m' rs')
   | L [I 9%Z; p] => option_map OSeqRead (dstr p)
+  | L [I 10%Z; p] => option_map OMkdir (dstr p)
+  | L [I 11%Z; p] => option_map ORmdir (dstr p)
+  | L [I 12%Z; p] => option_map ORmdirs (dstr p)
   | _ => None
   end.
 Definition e_ferr (e : ferr) : tr :=
   match e with
   | FNotFound => I 1%Z | FIsDir => I 2%Z | FNotDir => I 3%Z | FExists => I 4%Z | FTypeError => I 5%Z
-  | FAttrError => I 6%Z | FAssertion => I 7%Z | FUnrouted => I 8%Z
+  | FAttrError => I 6%Z | FAssertion => I 7%Z | FUnrouted => I 8%Z | FNotEmpty => I 10%Z
   end.
 Definition e_outcome (o : outcome) : tr :=
   match o with
@@ -522,7 +579,7 @@ Definition family_op (F : list str) (o : op) : Prop :=
   match o with
   | OSave p _ | ORm p => In p F
   | ORead _ | OExists _ | OListdir _ | OIsdir _ | OSeqRead _ => True
-  | OMkdirs _ | OWrite _ _ _ | OSeqWrite _ _ _ => False
+  | OMkdirs _ | OWrite _ _ _ | OSeqWrite _ _ _ | OMkdir _ | ORmdir _ | ORmdirs _ => False
   end.
 Definition pure_step (a : amap) (o : op) : amap :=
   match o with
